@@ -1320,10 +1320,22 @@ namespace chaiscript {
             } else if (catch_block.children.size() == 2 || catch_block.children.size() == 3) {
               const auto name = Arg_List_AST_Node<T>::get_arg_name(*catch_block.children[0]);
 
-              if (dispatch::Param_Types(
-                      std::vector<std::pair<std::string, Type_Info>>{Arg_List_AST_Node<T>::get_arg_type(*catch_block.children[0], t_ss)})
-                      .match(Function_Params{t_except}, t_ss.conversions())
-                      .first) {
+              const dispatch::Param_Types catch_type(
+                  std::vector<std::pair<std::string, Type_Info>>{Arg_List_AST_Node<T>::get_arg_type(*catch_block.children[0], t_ss)});
+
+              // match() accepts a base / derived pair in either direction, because a function call goes on to
+              // convert its argument and fails if that does not work. A clause typed with a derived class must
+              // catch a value held as the base class only if the value really is of the derived class.
+              const auto converts_to_clause_type = [&]() {
+                try {
+                  (void)catch_type.convert(Function_Params{t_except}, t_ss.conversions());
+                  return true;
+                } catch (const exception::bad_boxed_cast &) {
+                  return false;
+                }
+              };
+
+              if (catch_type.match(Function_Params{t_except}, t_ss.conversions()).first && converts_to_clause_type()) {
                 t_ss.add_object(name, t_except);
 
                 if (catch_block.children.size() == 2) {
